@@ -30,3 +30,9 @@ pub fn stub_type_equal<Src: ?Sized, Target: ?Sized>() -> bool {
     }
     true
 }
+
+/// hashbrown's default hasher state draws its seeds from the OS (`getrandom` -> `syscall`), which
+/// Kani does not model.  Fixed seeds: hash *values* are not part of any property here.
+pub fn stub_random_state_new() -> ahash::RandomState {
+    ahash::RandomState::with_seeds(1, 2, 3, 4)
+}
